@@ -4,6 +4,7 @@ Go map iterations give results that do not depend on the iteration order.
 -/
 import AvoVerif.Lemmas.MaskSet
 import AvoVerif.Model.Alloc
+import AvoVerif.Lemmas.AllocPerm
 namespace Avo.Determinism
 open Avo.Reg Avo.MaskSet Avo.Alloc
 
@@ -298,6 +299,82 @@ theorem mostRestricted_perm {l l' : List (Nat × List Nat)} (hk : (l.map (·.1))
           rw [this]
         · rw [b]
       · rw [a]
+
+/-! ## pass/alloc.go `AddInterferenceSet` / `update` / `Allocate`: the edge list and the `possible` map -/
+
+/-- Allocator states that differ only in the order of the edge list and of the
+entries of the `possible` map. -/
+def StEqv (s t : AState) : Prop :=
+  s.allocation = t.allocation ∧ s.possible.Perm t.possible ∧ s.edges.Perm t.edges
+
+theorem keys_perm {p q : Poss} (h : p.Perm q) : (p.map (·.1)).Perm (q.map (·.1)) := h.map _
+
+/-- **`Allocate` is order independent.** The whole allocation loop returns the
+same allocation (or the same error) whatever order the interference edges were
+recorded in — they are appended while iterating Go maps — and whatever order
+the `possible` map is visited in. -/
+theorem allocLoop_perm : ∀ (fuel : Nat) (s t : AState), StEqv s t → (s.possible.map (·.1)).Nodup →
+    allocLoop fuel s = allocLoop fuel t
+  | 0, _, _, _, _ => rfl
+  | fuel + 1, s, t, ⟨hal, hposs, hedges⟩, hnd => by
+    simp only [allocLoop]
+    rw [updateEdges_eq_foldl, updateEdges_eq_foldl, ← hal]
+    have h1 := foldl_perm s.allocation hedges (.ok (s.possible, []))
+    have h2 := foldl_congr s.allocation t.edges (.ok (s.possible, [])) (.ok (t.possible, []))
+      ⟨hposs, List.Perm.refl _⟩
+    have h := Eqv.trans h1 h2
+    cases hs : s.edges.foldl (stepE s.allocation) (.ok (s.possible, [])) with
+    | error e =>
+      cases ht : t.edges.foldl (stepE s.allocation) (.ok (t.possible, [])) with
+      | error e' =>
+        -- the only error `update` raises is `impossible`
+        have only : ∀ (es : List Edge) (a : UAcc) (e : AErr), (∀ e0, a = .error e0 → e0 = .impossible) →
+            es.foldl (stepE s.allocation) a = .error e → e = .impossible := by
+          intro es
+          induction es with
+          | nil => intro a e ha h; exact ha e h
+          | cons x xs ih =>
+            intro a e ha h
+            simp only [List.foldl_cons] at h
+            apply ih _ e _ h
+            intro e0 he0
+            cases a with
+            | error ea => simp only [stepE] at he0; injection he0 with he0; rw [← he0]; exact ha ea rfl
+            | ok pr =>
+              rcases pr with ⟨p, r⟩
+              simp only [stepE] at he0
+              repeat' split at he0
+              all_goals first | (cases he0; done) | (injection he0 with he0; exact he0.symm) | (cases he0; rfl)
+        have e1 := only _ _ e (by intro e0 h0; cases h0) hs
+        have e2 := only _ _ e' (by intro e0 h0; cases h0) ht
+        simp [e1, e2]
+      | ok pr => rw [hs, ht] at h; cases h
+    | ok pr =>
+      cases ht : t.edges.foldl (stepE s.allocation) (.ok (t.possible, [])) with
+      | error e' => rw [hs, ht] at h; cases h
+      | ok pr' =>
+        rcases pr with ⟨p, r⟩; rcases pr' with ⟨p', r'⟩
+        rw [hs, ht] at h
+        obtain ⟨hp, hr⟩ := h
+        simp only
+        -- keys of `p` are those of `s.possible`
+        have hk : (p.map (·.1)).Nodup := by
+          have hu : updateEdges s.allocation s.edges s.possible [] = .ok (p, r.reverse) := by
+            rw [updateEdges_eq_foldl, hs]
+          have := (updateEdges_spec s.allocation s.edges s.possible [] p r.reverse hu).1
+          rw [this]; exact hnd
+        rw [← mostRestricted_perm hk hp]
+        cases hm : mostRestricted p with
+        | none => rfl
+        | some m =>
+          rcases m with ⟨v, ps⟩
+          cases ps with
+          | nil => rfl
+          | cons q ps' =>
+            simp only
+            apply allocLoop_perm fuel
+            · exact ⟨rfl, hp.filter _, (List.reverse_perm r).trans (hr.trans (List.reverse_perm r').symm)⟩
+            · exact (List.Nodup.sublist ((List.filter_sublist).map _) hk)
 
 /-- Non-vacuity. -/
 example : mostRestricted [(513, [256, 65792]), (257, [256, 65792]), (769, [256])] = some (769, [256]) := by decide
